@@ -116,6 +116,9 @@ Sorted == {AscOf(Nums, S, 1) : S \in SubSeqs(Nums)} \cup {AscOf(Txts, S, 1) : S 
 Mixed == UNION {{InsertAt(s, x, p) : x \in Others, p \in 1..(Len(s) + 1)} : s \in {t \in Sorted : Len(t) < MaxLen}}
 Pool5 == <<IntV(1), IntV(2), Txt(<<97>>), Txt(<<65>>), Txt(<<99, 100>>), Bool(TRUE), Blank>>
 Arbitrary == UNION {[1..n -> {Pool5[i] : i \in 1..Len(Pool5)}] : n \in 1..3}
+Pool6 == {Txt(<<53>>), Txt(<<49, 48>>), Txt(<<98>>), IntV(7), Txt(<<97>>)}        \* "5" "10" "b" 7 "a"
+NumTextVecs == {v \in UNION {[1..n -> Pool6] : n \in 2..3} :
+                  \E i \in 1..Len(v) : v[i] \in {Txt(<<53>>), Txt(<<49, 48>>)}}
 
 Init ==
   /\ res = Pending
@@ -132,6 +135,10 @@ Init ==
         /\ key \in {IntV(k) : k \in 0..(2 * vec[1] + 1)}
      \/ /\ kind = "countif" /\ mode \in 1..6 /\ key \in {IntV(1), IntV(2), Txt(<<97>>), Txt(<<99, 42>>), Bool(TRUE)}
         /\ vec \in Arbitrary
+     \* text criteria over vectors that also hold text that looks like a number ("5", "10"):
+     \* it is text, compared as text
+     \/ /\ kind = "countif" /\ mode \in 1..6 /\ key \in {Txt(<<97>>), Txt(<<99>>), Txt(<<99, 42>>)}
+        /\ vec \in NumTextVecs
 
 OpOf(m) == <<"=", "<>", "<", "<=", ">", ">=">>[m]
 
